@@ -417,9 +417,17 @@ static inline void chk_(const void* a, const char* what, void* pc, void* fp) {
   size_t off = (size_t)((const char*)a - arena_base);
   if (off < ARENA && shadow[off / GRAN] == 2) uaf(a, what, pc, *(void**)fp);
 }
+struct NamedRange { uintptr_t base; size_t elem, count; long first; };
+static NamedRange named[8]; static int n_named = 0;
+void name_range(const void* base, size_t elem, size_t count, long firstid) { if (n_named < 8) named[n_named++] = {(uintptr_t)base, elem, count, firstid}; }
 static void step_ev(const char* kind, const void* a, uint64_t v, int mo, int ok, void* pc) {
   if (!log_steps || !active || my_tid < 0) return;
   long vv; long vp = 0;
+  for (int i = 0; i < n_named; i++) if (v >= named[i].base && v < named[i].base + named[i].elem * named[i].count) {
+    logf("{\"e\":\"%s\",\"t\":%d,\"op\":\"%s\",\"a\":%d,\"b\":-2,\"r\":%d,\"v\":%ld,\"pc\":\"%lx\"}\n", kind, my_tid, mo_name(mo), a ? loc_id(a) : 0, ok,
+         named[i].first + (long)((v - named[i].base) / named[i].elem), (unsigned long)pc);
+    return;
+  }
   uint64_t base = v & ~(uint64_t)0xffff000000000007ull;
   if (in_arena((void*)base) && block_of((void*)base)) { vp = block_of((void*)base); vv = (long)(v & 7) + (long)((v >> 48) << 3); }
   else if (v < (1ull << 30)) vv = (long)v;
